@@ -38,7 +38,8 @@ TECHNIQUE = 'deterministic simulation (lock-step original vs re-import under one
 
 PIECES = ['a', 'b', 'k', ' ', ' ', ':', ': ', '#', ' #', '-', '- ', '?', '? ', '"', "'", '\n', '\t', '{', '}', '[', ']', ',', '&', '*', '!',
           '|', '>', '%', '@', '`', 'é', '日', '\\', '0', '1', '~', 'null', 'true', 'yes', 'no', '1.5', '1e3', '0x1f', '=', '<<',
-          '\u0085', ' ', ' ', '﻿', '\x7f', ' ', '...', '---', 'x: y', "it's", '\r']
+          '\u0085', ' ', ' ', '﻿', '\x7f', ' ', '...', '---', 'x: y', "it's", '\r',
+          '\n   \n', '\n\t\n', 'a\n    \nb']       # interior lines made of blanks only belong to the text
 SIGNIFICANT = set(':#-?"\'\n\t{}[],&*!|>%@`\\~=<') | {'\u0085', ' ', ' ', '﻿', '\r'}
 
 
